@@ -51,12 +51,36 @@ type table struct {
 	keks     []kekEntry
 	aslabels []asEntry
 	home     []homeEntry
+	// optional configuration functions left nil in HandlerConfig (NewHandler installs its defaults:
+	// no KEK, no AS label, ErrDevEUINotFound - exactly what an empty list means in the printed table)
+	nilKEK, nilASLabel, nilHome bool
 }
 
 var errBackend = errors.New("storage unavailable")
 
 func (t *table) handler() http.Handler {
-	h, err := joinserver.NewHandler(joinserver.HandlerConfig{
+	if t.nilKEK && len(t.keks) != 0 || t.nilASLabel && len(t.aslabels) != 0 || t.nilHome && len(t.home) != 0 {
+		panic("harness: a nil configuration function cannot have table entries")
+	}
+	cfg := t.config()
+	if t.nilKEK {
+		cfg.GetKEKByLabelFunc = nil
+	}
+	if t.nilASLabel {
+		cfg.GetASKEKLabelByDevEUIFunc = nil
+	}
+	if t.nilHome {
+		cfg.GetHomeNetIDByDevEUIFunc = nil
+	}
+	h, err := joinserver.NewHandler(cfg)
+	if err != nil {
+		panic(err)
+	}
+	return h
+}
+
+func (t *table) config() joinserver.HandlerConfig {
+	return joinserver.HandlerConfig{
 		GetDeviceKeysByDevEUIFunc: func(e lorawan.EUI64) (joinserver.DeviceKeys, error) {
 			for _, d := range t.devices {
 				if d.eui == e {
@@ -113,11 +137,7 @@ func (t *table) handler() http.Handler {
 			}
 			return lorawan.NetID{}, joinserver.ErrDevEUINotFound
 		},
-	})
-	if err != nil {
-		panic(err)
 	}
-	return h
 }
 
 // mutated reports a KEK whose storage the handler has written to.
@@ -193,7 +213,17 @@ func (t *table) replay() map[string]interface{} {
 	for _, h := range t.home {
 		hs = append(hs, fmt.Sprintf("DevEUI=%x %s NetID=%x", h.eui, kinds[h.kind], h.netID))
 	}
-	return map[string]interface{}{"GetDeviceKeysByDevEUI": ds, "GetKEKByLabel": ks, "GetASKEKLabelByDevEUI": as, "GetHomeNetIDByDevEUI": hs}
+	m := map[string]interface{}{"GetDeviceKeysByDevEUI": ds, "GetKEKByLabel": ks, "GetASKEKLabelByDevEUI": as, "GetHomeNetIDByDevEUI": hs}
+	if t.nilKEK {
+		m["GetKEKByLabel"] = "nil function in HandlerConfig"
+	}
+	if t.nilASLabel {
+		m["GetASKEKLabelByDevEUI"] = "nil function in HandlerConfig"
+	}
+	if t.nilHome {
+		m["GetHomeNetIDByDevEUI"] = "nil function in HandlerConfig"
+	}
+	return m
 }
 
 // ---------- request ----------
